@@ -155,7 +155,7 @@ func c10(r *core.Run) {
 				if len(args) != 2 {
 					return false
 				}
-				return p.ProvAt(args[0], "", call).HasStore(ftFiles, "") && p.OnlyMsgField(p.ProvAt(args[1], "", call), h, "Creator")
+				return p.ResolveToEntry(p.ProvAt(args[0], "", call), h.Fn).HasStore(ftFiles, "") && p.OnlyMsgField(p.ProvAt(args[1], "", call), h, "Creator")
 			}, true)
 		}
 		guardRow(r, "C10/R1", h, "owner-gate", allEffects(), mk, "ownerPredicate(loaded record, signer)=true")
@@ -263,7 +263,7 @@ func c10(r *core.Run) {
 				if len(args) != 2 {
 					return false
 				}
-				pr := p.ProvAt(args[0], "", call)
+				pr := p.ResolveToEntry(p.ProvAt(args[0], "", call), h.Fn)
 				if !pr.HasStore(ftFiles, "") || !p.OnlyMsgField(p.ProvAt(args[1], "", call), h, "Creator") {
 					return false
 				}
